@@ -1091,8 +1091,7 @@ def judge_replay(case, cuts):
 # ------------------------------------------------------------------------------- entry points
 
 def run(ctx):
-    if not __import__("os").environ.get("C02_NOBUILD"):      # development aid only
-        ctx.build_property()
+    ctx.build_property()
     if ctx.thorough:
         ctx.coqchk()
     ctx.rule = ("streams of 1..4 valid frames per connection type with sizes on every length-class boundary "
@@ -1116,9 +1115,6 @@ def run(ctx):
             ctx.violation("C02:%s:%s" % (KEYNAME[case["conn"]], d.get("key_suffix") or e),
                           "%s: %s" % (fname, d.get("what", "")), dict(d["case"]))
     cases = gen_cases(ctx)
-    only = __import__("os").environ.get("C02_ONLY")
-    if only:
-        cases = [c for c in cases if c["conn"] in only.split(",")]
     total = 0
     for case in cases:
         total += judge(ctx, case, coq)
